@@ -49,7 +49,7 @@ def run_property(pid, tier, seed, ctx_cache={}):
                 infra.append("cargo exited with %s in run %s (seed %d)" % (r["rc"], r["label"], sd))
         judge.analyse_positive(ctx, {pid})
         negjudge.analyse_negative(ctx, {pid})
-        if pid == "C18":
+        if pid in ("C18", "C16"):
             negjudge.analyse_generator(ctx)
         mine = [o for o in ctx.obs if pid in o.props]
         per_seed.append(len(mine))
